@@ -547,6 +547,7 @@ fn exec_resolver(n: usize, out: &mut CaseOut) {
             d
         };
         let calls = std::cell::Cell::new(0usize);
+        let nested_wrong = std::cell::Cell::new(false);
         let resolve = |r: &Ref| -> Option<Dict> {
             let k = calls.get();
             calls.set(k + 1);
@@ -557,18 +558,34 @@ fn exec_resolver(n: usize, out: &mut CaseOut) {
                 let _ = ns.supertypes_of(&sym).len();
             }
             let i: usize = r.value[1..].parse().ok()?;
+            // ... and ask the namespace a relationship question of its own (a store scoped to "everything contained by
+            // r9" does exactly that): a nested `has_relationship` on the same thread, while the outer one is in progress
+            let plain = |r: &Ref| -> Option<Dict> {
+                let j: usize = r.value[1..].parse().ok()?;
+                if j < 9 { Some(rec(j)) } else { None }
+            };
+            let inner = ns.has_relationship(&rec(i.min(8)), &Symbol::from("containedBy"), &None, &Some(Ref::from("r9")), &plain);
+            if !inner {
+                nested_wrong.set(true);
+            }
             if i < 9 {
                 Some(rec(i))
             } else {
                 None
             }
         };
-        let got = ns.has_relationship(&rec(0), &Symbol::from("containedBy"), &None, &Some(Ref::from("r7")), &resolve);
-        let _ = tx.send(Ok((got, calls.get())));
+        let got = catch_unwind(AssertUnwindSafe(|| ns.has_relationship(&rec(0), &Symbol::from("containedBy"), &None, &Some(Ref::from("r7")), &resolve)));
+        let _ = match got {
+            Err(_) => tx.send(Err("PANIC".into())),
+            Ok(_) if nested_wrong.get() => tx.send(Err("NESTED".into())),
+            Ok(got) => tx.send(Ok((got, calls.get()))),
+        };
     });
     match rx.recv_timeout(std::time::Duration::from_secs(20)) {
         Ok(Ok((true, _))) => {}
         Ok(Ok((false, c))) => out.fail("harness", format!("the relationship query answered false after {c} resolver calls (the scenario is meant to hold)")),
+        Ok(Err(e)) if e == "PANIC" => out.fail("thread_panic", "has_relationship panicked when its resolver asked the same namespace a relationship question of its own (nested has_relationship on one thread)".into()),
+        Ok(Err(e)) if e == "NESTED" => out.fail("history_dependent", "a has_relationship query issued from inside a resolver (r_i containedBy r9 along the chain r0 -> .. -> r9) answered false".into()),
         Ok(Err(e)) => out.fail("harness", e),
         Err(_) => out.fail("resolver_deadlock", "has_relationship with a resolver that queries the same namespace (cold symbols) never returns".into()),
     }
